@@ -158,5 +158,6 @@ M("tcp-set-not-applied-when-established", ["C11"], TCPATTR, "\topts->optname = v
 M("tcp-user-timeout-unscaled", ["C11"], TCPATTR, "GEN_EFFECTUATE_SCALE(user_timeout, TCP_USER_TIMEOUT, 1000)", "GEN_EFFECTUATE_SCALE(user_timeout, TCP_USER_TIMEOUT, 1)")
 M("tcp-keepalive-toggle-not-applied", ["C11"], TCPATTR, "    if (effectuate_keepalive(fd, keepalive) < 0)\n\treturn -1;\n\n    return 0;", "    return 0;")
 M("default-service-always-messaging", ["C11"], XCM, "\tif (parent_s != NULL)\n\t    bytestream = xcm_tp_socket_is_bytestream(parent_s);", "\tif (0)\n\t    bytestream = xcm_tp_socket_is_bytestream(parent_s);")
-M("btls-accept-no-check-time-inherit", ["C11"], BTLS, "    if (!conn_bts->check_time_set)\n\tconn_bts->check_time = server_bts->check_time;", "    if (0)\n\tconn_bts->check_time = server_bts->check_time;")
+M("btls-accept-no-check-time-inherit", ["C11"], BTLS, "    bts->check_time = parent_bts->check_time;\n", "")
+M("btls-accept-no-auth-inherit", ["C11"], BTLS, "    bts->tls_auth = parent_bts->tls_auth;\n", "")
 M("accepted-always-nonblocking", ["C11"], XCM, "    conn_s = socket_create(server_s->proto, xcm_socket_type_conn,\n\t\t\t   server_s->is_blocking);", "    conn_s = socket_create(server_s->proto, xcm_socket_type_conn,\n\t\t\t   false);")
